@@ -932,8 +932,30 @@ func (c *c18HTTP) Gen(r *vh.RNG, n int, emit func(op string, tags ...string)) {
 				if r.Chance(1, 5) {
 					proto = "HTTP/1.0"
 				}
-				b = append(b, []byte("CONNECT "+target+" "+proto+"\r\nHost: "+target+"\r\n"+hdr+"\r\n")...)
 				p := c18Payload(r)
+				// a CONNECT that DECLARES a body: the handler never touches req.Body, so the
+				// tunnel payload behind the header block must still reach the upstream whole
+				body := ""
+				if r.Chance(1, 3) {
+					if len(p) == 0 || r.Chance(1, 2) {
+						p = append([]byte{0x81}, r.Bytes(r.Pick([]int{4, 20, 200}))...)
+					}
+					switch r.Intn(5) {
+					case 0:
+						body = "Content-Length: " + strconv.Itoa(r.Range(1, len(p)-1+1)) + "\r\n" // fewer than pipelined (or all)
+					case 1:
+						body = "Content-Length: " + strconv.Itoa(len(p)) + "\r\n"
+					case 2:
+						body = "Content-Length: " + strconv.Itoa(len(p)+r.Pick([]int{1, 7, 5000})) + "\r\n"
+					case 3:
+						body = "Transfer-Encoding: chunked\r\n"
+					default:
+						body = "Transfer-Encoding: chunked\r\n"
+						p = append([]byte("5\r\n\x81ELLO\r\n0\r\n\r\n"), p...) // a well-formed chunked body in front
+					}
+					atag += "-declared-body"
+				}
+				b = append(b, []byte("CONNECT "+target+" "+proto+"\r\nHost: "+target+"\r\n"+body+hdr+"\r\n")...)
 				b = append(b, p...)
 				tail = len(p)
 				tag += "connect-" + atag
